@@ -35,6 +35,10 @@ pub union AtomicIncrementalAverage64 {
 
 impl Default for AtomicIncrementalAverage64 {
     fn default() -> Self {
+        #[cfg(feature = "verif")]
+        if crate::verif::metric_origin() != 0 {
+            return Self { split: ManuallyDrop::new(IncrementalAveragePair32 { counter: crate::verif::metric_origin(), average: 0.0 }) };
+        }
         Self {
             split: ManuallyDrop::new(IncrementalAveragePair32 {
                 counter: 0,
